@@ -31,22 +31,13 @@ func scriptClass(s []byte) string {
 }
 
 func runSigOps(c *vrun.Ctx) error {
-	states, err := model(c, "SigOps", 3, []string{"Group", "Pick"})
-	if err != nil {
-		return err
-	}
 	st := newStats()
+	// the tx cases name their inputs; the table of named inputs is a case of
+	// its own, so tx cases wait until it has been read
 	var inKinds tla.Value
-	for _, s := range states {
-		if s["case"].F("kind").Str() == "inkinds" {
-			inKinds = s["expect"]
-		}
-	}
-	if inKinds.Kind != tla.KRec {
-		return fmt.Errorf("SigOps.tla: no table of input kinds in the dump")
-	}
-	c.Parallel(len(states), func(i int) {
-		s := states[i]
+	var waiting []tla.State
+	bt := &batcher{c: c, size: 8000}
+	bt.work = func(i int, s tla.State) {
 		cs, ex := s["case"], s["expect"]
 		switch cs.F("kind").Str() {
 		case "count":
@@ -88,7 +79,34 @@ func runSigOps(c *vrun.Ctx) error {
 			st.add("tx")
 			checkSigOpTx(c, cs.F("t"), inKinds, ex)
 		}
+	}
+	err := model(c, "SigOps", 3, []string{"Group", "Pick"}, func(s tla.State) error {
+		switch s["case"].F("kind").Str() {
+		case "inkinds":
+			bt.flush()
+			inKinds = s["expect"]
+			for _, w := range waiting {
+				bt.add(w)
+			}
+			waiting = nil
+		case "tx":
+			if inKinds.Kind != tla.KRec {
+				waiting = append(waiting, s)
+				return nil
+			}
+			bt.add(s)
+		default:
+			bt.add(s)
+		}
+		return nil
 	})
+	if err != nil {
+		return err
+	}
+	if inKinds.Kind != tla.KRec {
+		return fmt.Errorf("SigOps.tla: no table of input kinds in the dump")
+	}
+	bt.flush()
 	c.Logf("SigOps cases replayed: %s", st)
 	c.SetExtra("sigops_cases", st.export())
 	return nil
